@@ -50,7 +50,7 @@ Proof.
   assert (Hheld : In (Some o) (slots s)) by (eapply nth_some_In; eauto).
   destruct (inv_L _ _ _ _ H o (held_live [] s o Hheld)) as (_ & (_ & B2 & B3) & _). fold i in B2, B3.
   destruct (B3 eq_refl) as ((a & b & d & V) & S).
-  pose proof (get_inst_hp _ _ _ _ o H) as (_ & Hnl). fold i in Hnl.
+  pose proof (get_inst_hp _ _ _ _ o H) as (_ & Hnl & _). fold i in Hnl.
   unfold step in Hstep. cbn [run_op] in Hstep. fold (st0 s) in Hstep.
   unfold handle in Hstep. unfold bind at 1 2, gets in Hstep. cbn [fst snd] in Hstep.
   change (slots (st0 s)) with (slots s) in Hstep. rewrite Hh in Hstep.
